@@ -249,6 +249,10 @@ var hostileNumbers = []string{"-1", "0", "1", "2147483647", "2147483648", "42949
 
 // mutations enumerates: every truncation, every single-byte deletion, substitutions and insertions from
 // the alphabet, and grammar-aware replacements of every number (counts, lengths, indices, values).
+// wideMutants (filled by mutations) are the few mutants that run in every variant in the quick tier as well:
+// numbers without digits, whose handling differs per destination type.
+var wideMutants = map[string]bool{}
+
 func mutations(s string, full bool, entryName string) []string {
 	out := []string{s} // the unchanged stream first: it runs in every variant in both tiers
 	b := []byte(s)
@@ -283,8 +287,12 @@ func mutations(s string, full bool, entryName string) []string {
 	}
 	for _, loc := range numRe.FindAllStringIndex(s, -1) {
 		orig, _ := strconv.Atoi(s[loc[0]:loc[1]])
-		for _, h := range append([]string{strconv.Itoa(orig + 1), strconv.Itoa(orig - 1), strconv.Itoa(orig * 2), strconv.Itoa(orig + 100)}, hostile...) {
+		// (a number without digits, a bare sign: `i;`, `l-;`, `a{`)
+		for _, h := range append([]string{strconv.Itoa(orig + 1), strconv.Itoa(orig - 1), strconv.Itoa(orig * 2), strconv.Itoa(orig + 100), "", "-", "+"}, hostile...) {
 			out = append(out, s[:loc[0]]+h+s[loc[1]:])
+			if h == "" || h == "-" {
+				wideMutants[s[:loc[0]]+h+s[loc[1]:]] = true
+			}
 		}
 	}
 	// structural: duplicate / drop braces and quotes, swap adjacent bytes, repeat the stream
@@ -329,7 +337,7 @@ func TestWorker(t *testing.T) {
 		in := []byte(muts[i])
 		nv := e.n
 		vs := []int{i % nv, (i*7 + 3) % nv, (i*13 + 5) % nv}
-		if full || i == 0 {
+		if full || i == 0 || wideMutants[muts[i]] {
 			vs = vs[:0]
 			for v := 0; v < nv; v++ {
 				vs = append(vs, v)
